@@ -298,6 +298,7 @@ func handlePolling(s *Session, hdr header, buf []byte) (int, bool, error) {
 			if stream == nil {
 				continue
 			}
+			vpo(vpPollGotStream, stream, int64(state))
 			retErr = s.handleStreamMessage(stream, bufferSliceWrapper{offset: ele.offsetInShmBuf}, state)
 		}
 
